@@ -182,7 +182,7 @@ async function op_query_csv(req) {
     let warnings = [];
     let res = {};
     try {
-        await rbql_csv.query_csv(req.query, req.input, ',', 'quoted', req.output, ',', 'quoted', 'utf-8', warnings, !!req.with_headers, null, '', req.bulk ? {bulk_read: true} : null);
+        await rbql_csv.query_csv(req.query, req.input, req.in_dlm || ',', req.in_policy || 'quoted', req.output, req.out_dlm || ',', req.out_policy || 'quoted', 'utf-8', warnings, !!req.with_headers, null, '', req.bulk ? {bulk_read: true} : null);
         res.warnings = warnings;
         res.text = fs.readFileSync(req.output, 'utf-8');
     } catch (e) {
